@@ -9,10 +9,14 @@ LEVEL = "proof"
 MANIFEST = dict(
     text="Parsing untrusted bytes: fault-explicit Lean models of InputMemoryStream and of the modelled parsing constructors with "
          "no-fault / only-malformed_packet theorems for all byte strings and chains of any depth; every entry point (modelled or not) "
-         "is additionally driven under ASan/UBSan/LSan on seed, mutated, every-length and random buffers with an accessor sweep.",
+         "is additionally driven under ASan/UBSan/LSan on seed, mutated, every-length and random buffers with an accessor sweep. "
+         "The list of entry points is regenerated from the clang AST of the headers on every run (every public constructor / static / "
+         "member / free function taking const uint8_t* + size); theorem entry_points_covered (by decide) demands a disposition "
+         "(Lean model + theorem | harness | not a parser) for each, and harness/c01_entry.cpp calls every one that is not `not a parser`.",
     note="Proof covers the Lean models of the classes listed in the evidence (modelled_classes) and the generic backbone; "
          "the tie is differential correspondence under sanitizers; unmodelled classes get the implementation-side oracle only. "
-         "Trusted: Lean kernel + standard axioms, hand-written models, harness, generators, translator/gen_tags.py.",
+         "Trusted: Lean kernel + standard axioms, hand-written models, harness, generators, translator/gen_tags.py, "
+         "translator/gen_entrypoints.py and the hand-maintained disposition table Wire/Coverage.lean.",
     technique="Lean 4 proof over executable byte-level models + model/impl correspondence + spec oracle on impl output",
     design="DESIGN.md §6 C01, §11.2")
 
@@ -238,6 +242,15 @@ def run_entry_points(chk, gen):
                 problems.append(f"entry point {r['key']} has disposition {t['tag']} but harness/c01_entry.cpp does not call it")
     elif m is None:
         problems.append("the coverage table could not be evaluated: " + (err or "")[-800:])
+    # the deep harness (wire_main.cpp `parse <Class>`: dump, serialize, re-parse, clone, accessor sweep) must know every PDU
+    # class that can be built from a buffer -- ENTRY_CLASSES is written by hand, the generated table is not
+    want = {r["owner"] for r in rows if r["isPdu"] and r["kind"] == "ctor" and r["auto"]} | \
+           {r["owner"] + "*" for r in rows if r["isPdu"] and r["kind"] == "static" and r["name"] == "from_bytes"}
+    for c in sorted(want - set(wc.ENTRY_CLASSES)):
+        problems.append(f"PDU class {c} has a public parsing constructor / from_bytes but checks/wire_common.py ENTRY_CLASSES "
+                        "(harness/wire_main.cpp parse_class) does not drive it")
+    for c in sorted(set(wc.ENTRY_CLASSES) - want):
+        problems.append(f"checks/wire_common.py ENTRY_CLASSES names {c}, which the current headers cannot build from a buffer")
     for k in sorted(driven - set(known)):
         problems.append(f"harness/c01_entry.cpp has glue for {k}, which is no entry point of the current headers (stale glue)")
     new = []
